@@ -380,6 +380,7 @@ func (c *c08Run) fwRun(t *testing.T, s c08FwShared, qs []c08Filter, now int64) {
 	passed := []int{}
 	for i, q := range qs {
 		c.checkFloat(q.pod)
+		c.emitShape(q.pod, pod) // `pst` line when the pod carries container-status resources (no raw shapes in this harness)
 		h.Op("fwfilter %s", q.toks())
 		if prePanic {
 			h.Obs("fw panic")
@@ -436,6 +437,7 @@ func (c *c08Run) fwRun(t *testing.T, s c08FwShared, qs []c08Filter, now int64) {
 	assumed := p.build(c.t0)
 	assumed.OwnerReferences = pod.OwnerReferences
 	c.setClock(now)
+	c.emitShape(p, assumed)
 	h.Op("rsv %d %d %s", host, now, p.toks())
 	h.Tag("op:reserve")
 	if h.Guard(func() { fw.RunReservePluginsReserve(ctx, state, assumed, c08NodeName(host)) }) {
